@@ -48,7 +48,7 @@ class CAA(dns.rdata.Rdata):
     ) -> "CAA":
         flags = tok.get_uint8()
         tag = tok.get_string().encode()
-        value = tok.get_string().encode()
+        value = tok.get_string_as_bytes()
         return cls(rdclass, rdtype, flags, tag, value)
 
     def _to_wire(self, file, compress=None, origin=None, canonicalize=False):
